@@ -774,8 +774,9 @@ class EventGenerator:
 
         if value.qname or value.text is not None:
             # A nameless element only groups its children, it has no
-            # content of its own to close the parent start tag with
-            yield XmlWriterEvent.DATA, value.text
+            # content of its own to close the parent start tag with.
+            # No text at all keeps a xsi:nil attribute of the element
+            yield XmlWriterEvent.DATA, value.text or None
 
         for child in value.children:
             yield from self.convert_any_type(child, var, namespace)
